@@ -536,7 +536,7 @@ pub fn generate_c17(seed: u64, run: u64, corpus: &Corpus, tier: Tier, stats: &mu
     let path = "simfs:/src/unit1.pas".to_string();
     let mut attempt = 0;
     let mut timing_sensitive = false;
-    let (enc, bom_len, bytes, kind) = loop {
+    let (enc, bom_len, bytes, kind, reference) = loop {
         let content = gen_text(&mut rng, corpus, class, p.max_bytes);
         let bom = gen_bom_choice(&mut rng);
         let enc = encode_for(&mut rng, opts.encoding(), &content.text, bom, true);
@@ -556,7 +556,7 @@ pub fn generate_c17(seed: u64, run: u64, corpus: &Corpus, tier: Tier, stats: &mu
         let ra = child::run_reference(&probe_case.stdin_reference(0));
         stats.invocations += 1;
         if ra.exit.is_normal() && ra.wall_ms <= child::prescreen_slow_ms() {
-            break (enc, bom_len, bytes, kind);
+            break (enc, bom_len, bytes, kind, ra);
         }
         stats.probe("content_discarded_by_prescreen");
         timing_sensitive = true;
@@ -623,6 +623,13 @@ pub fn generate_c17(seed: u64, run: u64, corpus: &Corpus, tier: Tier, stats: &mu
             c.knobs.stdout_tty = true;
         }
         cases.push(c);
+    }
+    // an already formatted file in the same encoding: the text is unchanged, nothing may be
+    // rewritten, and stdout must reproduce the bytes
+    if run % 3 == 0 && reference.exit == Exit::Code(0) && reference.stdout != bytes {
+        for mode in [Mode::Files, Mode::StdinStdout] {
+            cases.push(base_case("C17", seed, run, &opts, mode, vec![SimFile::new(&path, reference.stdout.clone())]));
+        }
     }
     let describe = format!(
         "run {run}: {} bytes, configured {}, governing {}{}, kind {kind}, options [{}]",
@@ -854,9 +861,22 @@ persistent: false,
     case.path_form = form;
     let all_paths: Vec<String> = case.files.iter().map(|f| f.path.clone()).collect();
     case.path_args = path_args_for(&mut rng, form, &all_paths);
+    // multisets: the same file named more than once
+    let mut duplicated = false;
+    if form == PathForm::Explicit && rng.chance(1, 8) {
+        let mut args = all_paths.clone();
+        for _ in 0..rng.range(1, 2) {
+            let dup = rng.pick(&all_paths[..]).clone();
+            let at = rng.usize_below(args.len() + 1);
+            args.insert(at, dup);
+        }
+        case.path_args = args;
+        duplicated = true;
+        stats.probe("c18_same_file_named_twice");
+    }
     *stats.by_mode.entry(format!("path_form:{}", form.name())).or_insert(0) += 1;
     case.workers = workers;
-    case.chunks = gen_partition(&mut rng, n);
+    case.chunks = gen_partition(&mut rng, if duplicated { case.path_args.len() } else { n });
     case.policy = gen_policy(&mut rng);
     if rng.chance(1, 5) {
         case.knobs.avx2 = false;
